@@ -673,6 +673,13 @@ func (c *PolyCtx) of(v ssa.Value) Poly {
 				}
 			}
 		}
+		if c.G {
+			if callee := x.Call.StaticCallee(); callee != nil && isIntLike(x.Type()) {
+				if kind := minMaxKind(callee); kind != "" {
+					return c.opaque(kind, v, c.Of(x.Call.Args[0]), c.Of(x.Call.Args[1]))
+				}
+			}
+		}
 		name := CalleeName(&x.Call)
 		switch name {
 		case "(time.Time).Add":
@@ -824,4 +831,61 @@ func addrHasIndex(v ssa.Value) bool {
 			return false
 		}
 	}
+}
+
+// minMaxKind recognises a two-parameter function that returns the smaller ("min") or the
+// larger ("max") of its integer parameters: one comparison of the two parameters, each
+// return yields one of them.
+func minMaxKind(fn *ssa.Function) string {
+	if fn.Blocks == nil || len(fn.Params) != 2 || len(fn.Blocks) > 4 {
+		return ""
+	}
+	iff, ok := fn.Blocks[0].Instrs[len(fn.Blocks[0].Instrs)-1].(*ssa.If)
+	if !ok {
+		return ""
+	}
+	bo, ok := iff.Cond.(*ssa.BinOp)
+	if !ok {
+		return ""
+	}
+	a, b := fn.Params[0], fn.Params[1]
+	if !(bo.X == ssa.Value(a) && bo.Y == ssa.Value(b)) {
+		return ""
+	}
+	retOf := func(blk *ssa.BasicBlock) *ssa.Parameter {
+		for i := 0; i < 3 && blk != nil; i++ {
+			last := blk.Instrs[len(blk.Instrs)-1]
+			if r, ok := last.(*ssa.Return); ok && len(r.Results) == 1 {
+				p, _ := r.Results[0].(*ssa.Parameter)
+				return p
+			}
+			if _, ok := last.(*ssa.Jump); ok {
+				blk = blk.Succs[0]
+				continue
+			}
+			return nil
+		}
+		return nil
+	}
+	t, f := retOf(fn.Blocks[0].Succs[0]), retOf(fn.Blocks[0].Succs[1])
+	if t == nil || f == nil || t == f {
+		return ""
+	}
+	switch bo.Op {
+	case token.LSS, token.LEQ:
+		if t == a && f == b {
+			return "min"
+		}
+		if t == b && f == a {
+			return "max"
+		}
+	case token.GTR, token.GEQ:
+		if t == a && f == b {
+			return "max"
+		}
+		if t == b && f == a {
+			return "min"
+		}
+	}
+	return ""
 }
